@@ -166,10 +166,10 @@ func (d *Decimal) setString(c *Context, s string) (Condition, error) {
 	}
 	if isNaN {
 		if s != "" {
-			// We ignore these digits, but must verify them.
-			_, err := strconv.ParseUint(s, 10, 64)
-			if err != nil {
-				return 0, fmt.Errorf("parse payload: %s: %w", s, err)
+			// We ignore these digits, but must verify them. The payload may
+			// be any sequence of digits, not only one that fits 64 bits.
+			if !isDigits(s) {
+				return 0, fmt.Errorf("parse payload: %s", s)
 			}
 		}
 		return 0, nil
